@@ -227,6 +227,20 @@ def packable : Ty → Bool
 
 def packTy (a : Ty) : Option Ty := if packable a then some .bytes else none
 
+/-- the types `UNPACK` is modelled for: the packable types of the model whose sets and maps have *simple* comparable keys (the
+order of the other comparable types is property C03's subject; a set / map literal has to be checked for strictly ascending
+keys when it is read) -/
+def unpackable : Ty → Bool
+  | .unit | .bool | .int | .nat | .mutez | .timestamp | .string | .bytes => true
+  | .option t | .list t => unpackable t
+  | .set t => simpleComparable t
+  | .or a b | .pair a b => unpackable a && unpackable b
+  | .map k v => simpleComparable k && unpackable v
+  | _ => false
+
+/-- `UNPACK t :: bytes : S ⇒ option t : S` -/
+def unpackTy (t : Ty) (a : Ty) : Option Ty := if a = .bytes ∧ unpackable t = true then some (.option t) else none
+
 /-- extension 2, the rules of the form `i :: a : S ⇒ r : S`: result type for the operand type -/
 def unTy (i : Instr) (a : Ty) : Option Ty :=
   match i with
@@ -240,6 +254,7 @@ def unTy (i : Instr) (a : Ty) : Option Ty :=
   | .SET_DELEGATE => setDelegateTy a
   | .EMIT _ t => emitTy t a
   | .PACK => packTy a
+  | .UNPACK t => unpackTy t a
   | _ => none
 
 /-- TRANSFER_TOKENS: `p : mutez : contract p : S ⇒ operation : S` -/
